@@ -55,6 +55,9 @@ type JobSpec struct {
 	// modelled files/frameworks) that the plain native replay cannot reproduce; counterexamples are
 	// reported with their replay file but are not re-run natively.
 	EngineOnly bool `json:"engine_only,omitempty"`
+	// SchedReplay: a thread harness whose counterexamples (inputs + schedule) are replayed natively over
+	// an instrumented copy of the module's sources with a lock-step scheduler (verifpt).
+	SchedReplay bool `json:"sched_replay,omitempty"`
 }
 
 type Job struct {
@@ -184,6 +187,7 @@ func (j *Job) sample(s *State, msg, verdict string) {
 // PathSample: a completed path with a concrete witness of its path condition; replayed natively
 // to validate the interpreter against the real build (DESIGN §4 self-validation).
 type PathSample struct {
+	Sched  []int         `json:"schedule,omitempty"`
 	Inputs []ReplayInput `json:"inputs"`
 	Failed []string      `json:"failed"`
 	Obs    []string      `json:"observed"`
@@ -207,10 +211,10 @@ func (j *Job) pathDone(s *State) {
 		}
 	}
 	j.mu.Unlock()
-	if slot < 0 || s.model == nil || len(s.threads) > 1 {
+	if slot < 0 || s.model == nil || (len(s.threads) > 1 && !j.Spec.SchedReplay) {
 		return
 	}
-	ps := PathSample{Inputs: replayInputs(s, s.model), Failed: append([]string{}, s.failed...)}
+	ps := PathSample{Inputs: replayInputs(s, s.model), Failed: append([]string{}, s.failed...), Sched: append([]int(nil), s.sched...)}
 	for _, o := range s.obs {
 		if t, ok := o.v.(*Term); ok {
 			ps.Obs = append(ps.Obs, fmt.Sprintf("%s %d", o.name, int64(evalTerm(t, s.model))))
